@@ -166,6 +166,11 @@ def run(ctx, R, tier):
     write_unconditional(F, R, rule='B.C03.cmd', floor=8, fn_filter=lambda p: ('sound::static_sound::handle' in p or 'sound::streaming::handle' in p)
                         and p.split('::')[-1] in ('pause', 'resume', 'resume_at', 'stop'))
     lifecycle_readers(F, R)
+    commands_reach_manager(F, R)
+    # 'every finite non-looping sound reaches Stopped': what is stored as the loop region is what the command said (None clears it)
+    from ..enginea import chk_loop_region_ordered
+    good, msg = chk_loop_region_ordered(F)
+    R.check(good, 'B.C03.loop-region', 'stores', 'Transport.loop_region: %s' % msg, detail=msg)
     fade_continuity(F, R)
     # a fade-driven step completes when its tween completes: the fade and start-time bookkeeping runs on every path of process
     from .c06 import ungated
@@ -690,5 +695,61 @@ def fade_continuity(F, R, rule='B.SM.fade-continuity'):
                 bad.append('%s assigns self.volume_fade' % b.path)
     sets = [b.path for b in F.bodies if b.krate == 'kira' and b.path.startswith(PSM + '::')
             for _, t in b.calls() if (callee_path(t) or '') == 'parameter::Parameter::<T>::set']
+    # ... and with the tween the caller asked for: the tween handed to `set` is the function's (or closure's) own tween
+    # argument, passed through untouched - its start time, duration and easing are the caller's
+    from ..facts import op_local
+    for b in F.bodies:
+        if b.krate != 'kira' or not b.path.startswith(PSM + '::'):
+            continue
+        for bb, t in b.calls():
+            if (callee_path(t) or '') != 'parameter::Parameter::<T>::set' or len(t['args']) < 3:
+                continue
+            l = op_local(t['args'][2])
+            for _ in range(6):
+                d = b.single_def(l) if l is not None else None
+                if l is not None and 1 <= l <= b.arg_count:
+                    break
+                if d and d[0] == 'stmt' and d[3]['rv']['k'] == 'use' and op_local(d[3]['rv']['op']) is not None and not d[3]['rv']['op']['pl']['p']:
+                    l = op_local(d[3]['rv']['op'])
+                    continue
+                break
+            if not (l is not None and 1 <= l <= b.arg_count):
+                bad.append('%s hands Parameter::set a tween it built itself (%s), not the caller\'s' % (b.path, describe(b, t['args'][2], depth=3, at=bb)[:60]))
     R.check(not bad and len(sets) >= 3, rule, 'volume_fade', '; '.join(bad) or 'pause / resume / stop do not retarget the fade with Parameter::set (found %d)' % len(sets),
             detail={'methods': n, 'set_calls': len(sets)})
+
+
+def commands_reach_manager(F, R, rule='B.C03.cmd-applied'):
+    """A pause / resume / stop command that was read is handed to the state machine, whatever the current state: under
+    the Some edge of each life-cycle reader every path reaches `PlaybackStateManager::<same name>` (the state machine
+    itself decides what a command means in each state, identically for both kinds of sound; a handler that short-cuts -
+    e.g. marks a paused streaming sound Stopped at once instead of Stopping for the length of the fade - makes the two
+    kinds of sound report different states)."""
+    from ..rules import some_edge
+    from .c07 import origin_pl, last_field
+    n = 0
+    for tag, owner in (('static', 'sound::static_sound::sound::StaticSound'), ('streaming', 'sound::streaming::sound::StreamingSound')):
+        v = F.inlined_view(owner + '::read_commands', depth=2, pred=lambda hp: hp.startswith(owner + '::'))
+        if v is None:
+            v = F.inlined_view('<%s as sound::Sound>::on_start_processing' % owner, depth=3, pred=lambda hp: hp.startswith(owner + '::'))
+        if not R.check(v is not None, rule, 'anchor:' + tag, 'command reading of the %s sound not found' % tag):
+            continue
+        for x, t in v.calls():
+            if (callee_path(t) or '') != 'command::CommandReader::<T>::read':
+                continue
+            lf = last_field(origin_pl(v, t['args'][0]) or {})
+            if not lf or lf[0] not in ('pause', 'resume', 'stop'):
+                continue
+            n += 1
+            se = some_edge(v, x)
+            ok = False
+            if se is not None:
+                none_side = set()
+                some_side = v.reachable([se])
+                tgt = [y for y, t2 in v.calls() if (callee_path(t2) or '') == 'playback_state_manager::PlaybackStateManager::' + lf[0] and y in some_side]
+                # exits of the Some side: the next reader's read, or a return
+                nxt = [y for y, t2 in v.calls() if (callee_path(t2) or '') == 'command::CommandReader::<T>::read' and y in some_side and y != x]
+                ok = bool(tgt) and must_pass(v, [se], nxt + v.return_blocks(), tgt)
+            R.check(ok, rule, '%s:%s' % (tag, lf[0]), 'the %s sound does not hand every `%s` command it reads to PlaybackStateManager::%s' % (tag, lf[0], lf[0]),
+                    detail={'reader': lf[0]}, where=v.file)
+    R.floor(rule, n, 6)
